@@ -386,6 +386,12 @@ impl PacketReceiver {
                     let window_delta = packet_id::sub(sequence_id, new_base_id);
 
                     if window_parent_lead == 0 || window_parent_lead > window_delta {
+                        if self.data_flags[flags_index] & flag_bit != 0 {
+                            // Never advance beyond a packet which has not been delivered (only
+                            // possible if the sender's parent leads are inconsistent)
+                            break;
+                        }
+
                         // println!("Forget sequence ID {}", sequence_id);
                         new_base_id = next_id;
                         // Window advancement implies that this packet has been delivered
